@@ -151,6 +151,47 @@ def write_file(c, inst, relpath, data):
     return i
 
 
+def session_script(c, rng, h, buf, pos, t, first=None):
+    """a random script of write / seek / flush calls on write handle h; returns the bytes a growable
+    cursor holds afterwards (generator-side belief only)"""
+    buf = bytearray(buf)
+
+    def put(d):
+        nonlocal buf, pos
+        if not d:
+            return
+        if pos > len(buf):
+            buf.extend(b"\x00" * (pos - len(buf)))
+        buf[pos:pos + len(d)] = d
+        pos += len(d)
+    if first is not None:
+        c.op("hwrite", h, vfx.hexs(first))
+        put(first)
+    for _ in range(rng.choice([0, 0, 1, 2, 3, 5])):
+        r = rng.random()
+        if r < 0.4:
+            d = rng.choice([b"ZZ", b"\x00", b"patch", b"\xff\xfe", b"0123456789"])
+            c.op("hwrite", h, vfx.hexs(d))
+            put(d)
+        elif r < 0.75:
+            wh = rng.choice(["s", "s", "c", "e"])
+            if wh == "s":
+                off = rng.randint(0, len(buf) + 3)
+                pos = off
+            elif wh == "c":
+                off = rng.randint(-pos, 4)
+                pos = pos + off
+            else:
+                off = rng.randint(-len(buf), 4)
+                pos = len(buf) + off
+            c.op("hseek", h, wh, off)
+        else:
+            c.op("hflush", h)
+            if rng.random() < 0.5:
+                c.op("snap", t)
+    return bytes(buf)
+
+
 def prepopulate(c, g, rng, names, tree, density=0.5):
     """random content in the lower layers (and sometimes the upper one), tracked in `tree`"""
     layers = list(reversed(g.prepop))  # lowest first so that upper shadows lower in `tree`
@@ -196,9 +237,13 @@ def rand_path(rng, names, maxdepth=3):
     return tuple(rng.choice(names) for _ in range(min(d, maxdepth)))
 
 
-def arg_of(rng, p, hostile=0.1):
+HOSTILE = [0.1]
+
+
+def arg_of(rng, p, hostile=None):
     """a join argument denoting component path p (sometimes in a non-canonical spelling)"""
     s = rel(p)
+    hostile = HOSTILE[0] if hostile is None else hostile
     if p and rng.random() < hostile:
         r = rng.random()
         if r < 0.25:
@@ -213,13 +258,16 @@ def arg_of(rng, p, hostile=0.1):
 
 
 def gen_history(c, g, rng, nops, typed=True, names=None, mix=None, snap_every=True, allow_big=True,
-                with_times=False, prepop_density=0.5):
+                with_times=False, prepop_density=0.5, after_prepop=None, hostile=0.1):
     """append nops operations on the target to case c.  typed=True stays inside C01's domain."""
     names = names or rng.sample(NAMES, rng.randint(3, 4))
+    HOSTILE[0] = hostile
     tree = Tree()
     t = g.target
     if g.prepop or g.upper:
         prepopulate(c, g, rng, names, tree, prepop_density)
+    if after_prepop:
+        after_prepop(c, g, tree)
     if snap_every:
         c.op("snap", t)
     kinds = mix or (["createdir"] * 3 + ["createfile"] * 4 + ["append"] * 2 + ["removefile"] * 2 + ["removedir"] * 2
@@ -265,22 +313,7 @@ def gen_history(c, g, rng, nops, typed=True, names=None, mix=None, snap_every=Tr
             i = c.op("createfile", vfx.ps(t, arg_of(rng, p)))
             ok = p[:-1] in tree.dirs and p not in tree.dirs and p != ()
             if ok:
-                c.op("hwrite", i, vfx.hexs(data))
-                r = rng.random()
-                if r < 0.25 and len(data) > 1:
-                    off = rng.randint(0, len(data))
-                    patch = rng.choice([b"ZZ", b"\x00", b"patch"])
-                    c.op("hseek", i, "s", off)
-                    c.op("hwrite", i, vfx.hexs(patch))
-                    data = data[:off] + patch + data[off + len(patch):]
-                elif r < 0.35:
-                    c.op("hflush", i)
-                    c.op("snap", t)
-                elif r < 0.45:
-                    gap = rng.randint(1, 5)
-                    c.op("hseek", i, "e", gap)
-                    c.op("hwrite", i, vfx.hexs(b"!"))
-                    data = data + b"\x00" * gap + b"!"
+                data = session_script(c, rng, i, b"", 0, t, first=data)
                 c.op("hdrop", i)
                 tree.files[p] = data
             else:
@@ -296,8 +329,12 @@ def gen_history(c, g, rng, nops, typed=True, names=None, mix=None, snap_every=Tr
             data = pick_content(rng, False)
             i = c.op("appendfile", vfx.ps(t, arg_of(rng, p)))
             if p in tree.files:
-                c.op("hwrite", i, vfx.hexs(data))
-                tree.files[p] = tree.files[p] + data
+                if g.has_phys or rng.random() < 0.5:
+                    c.op("hwrite", i, vfx.hexs(data))
+                    tree.files[p] = tree.files[p] + data
+                else:
+                    # seeks on append handles: in-memory backends only (O_APPEND differs by design)
+                    tree.files[p] = session_script(c, rng, i, tree.files[p], len(tree.files[p]), t, first=data)
             c.op("hdrop", i)
         elif k == "removefile":
             p = rng.choice(files) if valid and files else rand_path(rng, names)
